@@ -1152,7 +1152,8 @@ fn main() {
             let prop = sub.strip_prefix("oracle-").unwrap_or("");
             let mut fails: Vec<String> = vec![];
             let mut stats: BTreeMap<String, u64> = BTreeMap::new();
-            let scns = gen_scenarios(seed ^ 0x00c1_1c10, n, &tier, "o");
+            // thorough: the same exhaustive shard as the correspondence; quick: an independent sample
+            let scns = gen_scenarios(if tier == "thorough" { seed } else { seed ^ 0x00c1_1c10 }, n, &tier, "o");
             let total = scns.len();
             // every scenario is evaluated; at most 3 FAIL lines (with their case) are kept per class
             let mut per_class: BTreeMap<String, u64> = BTreeMap::new();
